@@ -32,11 +32,16 @@ func TestVerifC16(t *testing.T) {
 	var bg sync.WaitGroup
 	nSess := vlib.Budget(3, 24)
 	nMismatch := vlib.Budget(1, 4)
+	var sessMu sync.Mutex
+	sessions := map[string]int{}
 	for i := 0; i < nSess+nMismatch; i++ {
 		bg.Add(1)
 		go func(i int) {
 			defer bg.Done()
-			c16Session(out, vlib.NewRand(fmt.Sprintf("C16-session-%d", i)), i < nSess, i == 0)
+			st := c16Session(out, vlib.NewRand(fmt.Sprintf("C16-session-%d", i)), i < nSess, i == 0)
+			sessMu.Lock()
+			sessions[st]++
+			sessMu.Unlock()
 		}(i)
 		if i%4 == 3 {
 			bg.Wait() // at most four handshakes at a time
@@ -89,8 +94,20 @@ func TestVerifC16(t *testing.T) {
 		}
 	})
 
-	// ---- certificates
+	timed("concurrent-writers", func() {
+		for i := 0; i < vlib.Budget(3, 40); i++ {
+			c16ConcurrentWriters(out, r, r.Range(2, 8), r.Range(2, 5))
+		}
+	})
+
+	// ---- certificates (derivation, forged look-alikes) and each end's own authentication, attacked alone
 	timed("certificates", func() { c16Certificates(out, r, vlib.Budget(12, 200)) })
+	timed("one-sided-authentication", func() {
+		c16PipeAuth(out, r, vlib.Budget(1, 6))
+		c16ListenerAuth(out, r, vlib.Budget(1, 6))
+	})
+	// ---- the real listener: scenarios in which the matching session must be delivered
+	timed("listener-real-scenarios", func() { c16RealScenarios(out, r, vlib.Budget(1, 5)) })
 
 	// ---- listener, one macro step at a time
 	timed("listener-controlled", func() {
@@ -107,19 +124,41 @@ func TestVerifC16(t *testing.T) {
 	}
 	timed("listener-concurrent", func() {
 		var wg sync.WaitGroup
+		var mu sync.Mutex
+		expected, delivered := 0, 0
 		for i, n := range rounds {
 			wg.Add(1)
 			go func(i, n int) {
 				defer wg.Done()
-				c16Concurrent(out, vlib.NewRand(fmt.Sprintf("C16-round-%d", i)), n)
+				e, d := c16Concurrent(out, vlib.NewRand(fmt.Sprintf("C16-round-%d", i)), n)
+				mu.Lock()
+				expected, delivered = expected+e, delivered+d
+				mu.Unlock()
 			}(i, n)
 			if i%3 == 2 {
 				wg.Wait() // three listeners at a time
 			}
 		}
 		wg.Wait()
+		// coverage must not vanish silently: single pairs may time out under load (counted), but not all of them
+		if expected >= 3 {
+			out.Checked()
+			if delivered == 0 {
+				out.OracleFail("C16:matching-session-not-delivered", fmt.Sprintf("concurrent rounds: %d pairs dialled with the secret their Accept was waiting for and were never cancelled; none was delivered", expected), fmt.Sprintf("concurrent rounds=%v", rounds))
+			}
+		}
 	})
 	timed("wait-for-sessions-and-watchdog", func() { bg.Wait() })
+	// at least one same-secret session over the real stack must have carried its data completely; retried
+	// one at a time (no load from this harness) before anything is reported
+	complete := func() int { return sessions["faithful"] + sessions["swallowed"] }
+	for try := 0; try < 3 && complete() == 0; try++ {
+		sessions[c16Session(out, vlib.NewRand(fmt.Sprintf("C16-session-retry-%d", try)), true, false)]++
+	}
+	out.Checked()
+	if complete() == 0 {
+		out.OracleFail("C16:same-secret-session-never-completes", fmt.Sprintf("no session between Server and Client with one secret was established and carried its data (outcomes: %v)", sessions), "session same-secret floor")
+	}
 }
 
 // c16Replay re-runs model lines (`sctp|…`, `hbsctp|…`, `flow|…`) of a replay file on the real code;
@@ -183,6 +222,23 @@ func c16Replay(t *testing.T, out *vlib.Out, path string) {
 			}
 			c16Concurrent(out, r, 8)
 			fmt.Println("REPLAY (fresh draw of listener scenarios):", line)
+		case strings.HasPrefix(line, "listener-auth "), strings.HasPrefix(line, "dial-auth "), strings.HasPrefix(line, "server-auth "):
+			r := vlib.NewRand("C16-replay")
+			c16PipeAuth(out, r, 3)
+			c16ListenerAuth(out, r, 3)
+			fmt.Println("REPLAY (fresh draw of secrets for the one-sided authentication runs):", line)
+		case strings.HasPrefix(line, "realscenario "):
+			c16RealScenarios(out, vlib.NewRand("C16-replay"), 2)
+			fmt.Println("REPLAY (fresh draw of secrets for the real-listener scenarios):", line)
+		case strings.HasPrefix(line, "writers "):
+			r := vlib.NewRand("C16-replay")
+			for i := 0; i < 20; i++ {
+				c16ConcurrentWriters(out, r, r.Range(2, 8), r.Range(2, 5))
+			}
+			fmt.Println("REPLAY (fresh draw of concurrent writers):", line)
+		case strings.HasPrefix(line, "certs "):
+			c16Certificates(out, vlib.NewRand("C16-replay"), 20)
+			fmt.Println("REPLAY (fresh draw of seeds for the certificate checks):", line)
 		case strings.HasPrefix(line, "session "):
 			r := vlib.NewRand("C16-replay")
 			for i := 0; i < 6; i++ {
